@@ -84,7 +84,7 @@ def new_order(g, tag, is_buy, market=False, ttl=None, agent_id=0, market_id=0, p
     if market:
         return Order(agent_id=agent_id, market_id=market_id, is_buy=is_buy, kind=MARKET_ORDER,
                      volume=v, ttl=ttl)
-    p = price if price is not None else g.int(f"p_{tag}", 1, price_hi)
+    p = price if price is not None else g.int(f"p_{tag}", 0, price_hi)
     return Order(agent_id=agent_id, market_id=market_id, is_buy=is_buy, kind=LIMIT_ORDER,
                  volume=v, price=p, ttl=ttl)
 
